@@ -606,9 +606,16 @@ def check_options(rng, sv, counters, bad, count):
         has_list = rng.random() < 0.8
         if has_list:
             config['supvisors_list'] = 'alpha,bravo:60002,<c>charlie:60003'
+        elif rng.random() < 0.5:
+            # the option is present but holds no name: an empty list, as when it is absent
+            config['supvisors_list'] = rng.choice(['', ',', ' , ', '  '])
+            counters['empty_lists_given'] = counters.get('empty_lists_given', 0) + 1
         core = rng.random() < 0.5
         if core:
             config['core_identifiers'] = rng.choice(['alpha', 'alpha,bravo', ' alpha , , bravo '])
+        elif rng.random() < 0.3:
+            config['core_identifiers'] = rng.choice(['', ',', ' , '])
+            counters['empty_lists_given'] = counters.get('empty_lists_given', 0) + 1
         synchro = None
         if rng.random() < 0.7:
             names = ['STRICT', 'LIST', 'TIMEOUT', 'CORE', 'USER']
